@@ -71,6 +71,8 @@ type gctx struct {
 	allTypeNames  []string
 	sigTypedefs   []*Def   // typedefs function signatures should prefer (TypedefArgs)
 	structOnlyOK  bool     // the field list under construction belongs to a struct or union
+	hden          int      // see hostileDen
+	clusterName   string   // a type name every file of the program defines (name clusters)
 	enumItemNames []string // Go constant names of generated enum items (hostile collisions)
 }
 
@@ -84,8 +86,27 @@ func (g *gctx) chance(num, den int, what string) bool {
 	return rapid.IntRange(1, den).Draw(g.t, g.label(what)) <= num
 }
 
+// thriftReserved: identifiers the Thrift lexer refuses. A hostile program that uses one does not
+// parse, which is a clean rejection but exercises nothing of the generator: they are kept rare.
+var thriftReserved = map[string]bool{}
+
+func init() {
+	for _, w := range strings.Fields("BEGIN END __CLASS__ __DIR__ __FILE__ __FUNCTION__ __LINE__ __METHOD__ __NAMESPACE__ abstract alias and args as assert begin break case catch class clone continue declare def default del delete do dynamic elif else elseif elsif end enddeclare endfor endforeach endif endswitch endwhile ensure except exec finally float for foreach from function global goto if implements import in inline instanceof interface is lambda module native new next nil not or package pass public print private protected raise redo rescue retry register return self sizeof static super switch synchronized then this throw transient try undef unless unsigned until use var virtual volatile when while with xor yield include cpp_include namespace void bool byte double string binary map list set oneway typedef struct union exception extends throws service enum const required optional true false i8 i16 i32 i64") {
+		thriftReserved[w] = true
+	}
+}
+
+// hostileDen: one site in hostileDen draws a hostile identifier. Drawn per program, so that some
+// programs have a single hostile name (and usually generate and build) and others many.
+func (g *gctx) hostileDen() int {
+	if g.hden == 0 {
+		g.hden = []int{2, 6, 16}[rapid.IntRange(0, 2).Draw(g.t, "hostile_density")]
+	}
+	return g.hden
+}
+
 func pickStr(g *gctx, ss []string, what string) string {
-	if g.o.Hostile && g.chance(1, 2, what+"_h") {
+	if g.o.Hostile && g.chance(1, g.hostileDen(), what+"_h") {
 		var h []string
 		switch what {
 		case "fname":
@@ -98,7 +119,10 @@ func pickStr(g *gctx, ss []string, what string) string {
 			h = hostileFuncs
 		}
 		if h != nil {
-			return h[g.intn(0, len(h)-1, what+"_hi")]
+			name := h[g.intn(0, len(h)-1, what+"_hi")]
+			if what == "fstem" || !thriftReserved[name] || g.chance(1, 25, what+"_reserved") {
+				return name
+			}
 		}
 	}
 	return ss[g.intn(0, len(ss)-1, what)]
@@ -131,6 +155,9 @@ func GenProgram(t *rapid.T, o *GenOpts) *Program {
 		files = append(files, &File{Path: dir + stem + ".thrift"})
 	}
 	g.p.Files = files
+	if !o.UniqueNames && nf >= 2 && g.chance(1, 3, "cluster") {
+		g.clusterName = fmt.Sprintf("Shared%d", g.intn(1, 99, "cluster_n"))
+	}
 	// build from the leaves: file i may include files j > i
 	defsOf := map[string][]*Def{}
 	for i := nf - 1; i >= 0; i-- {
@@ -213,9 +240,12 @@ func (g *gctx) newTypeName1() string {
 	g.n++
 	if g.o.Hostile && len(g.enumItemNames) > 0 && g.chance(1, 6, "tname_enumitem") {
 		// a type named like the Go constant of an enum item (Shape + CIRCLE => ShapeCircle)
-		return g.enumItemNames[g.intn(0, len(g.enumItemNames)-1, "tname_enumitem_i")]
+		name := g.enumItemNames[g.intn(0, len(g.enumItemNames)-1, "tname_enumitem_i")]
+		if !g.namesByFile[g.file.Path][name] {
+			return name
+		}
 	}
-	if g.o.Hostile && g.chance(1, 2, "tname_h") {
+	if g.o.Hostile && g.chance(1, g.hostileDen(), "tname_h") {
 		name := hostileTypes[g.intn(0, len(hostileTypes)-1, "tname_hi")]
 		if g.usedTypeNames == nil {
 			g.usedTypeNames = map[string]bool{}
@@ -304,6 +334,9 @@ func (g *gctx) genFile(f *File) {
 			}
 		}
 	}
+	if g.clusterName != "" {
+		g.genCluster(f, add)
+	}
 	if g.o.TypedefArgs {
 		// typedefs of every shape, so that function signatures can name them
 		var st, en *Def
@@ -345,6 +378,57 @@ func (g *gctx) genFile(f *File) {
 	// definition order inside a file is irrelevant to Thrift: shuffle
 	perm := rapid.Permutation(f.Defs).Draw(g.t, g.label("deforder"))
 	f.Defs = perm
+}
+
+// genCluster defines the program-wide shared name in this file (as a struct, an enum or a
+// typedef) and a struct naming, inside containers, every definition of that name this file can
+// see: its own and those of the files it includes. The generated package then has to tell
+// several same-named types of different packages apart.
+func (g *gctx) genCluster(f *File, add func(*Def)) {
+	own := &Def{Kind: DStruct, Name: g.clusterName}
+	switch g.intn(0, 3, "cluster_kind") {
+	case 0:
+		own.Kind = DEnum
+		own.Items = []EnumItem{{Name: "FIRST", Value: 0}, {Name: "SECOND", Value: 1}}
+	case 1:
+		own.Kind = DTypedef
+		own.Target = &Type{K: TList, Elem: &Type{K: TString}}
+	case 2:
+		own.Kind = DTypedef
+		own.Target = &Type{K: TI64}
+	default:
+		own.Fields = []*Field{{ID: 1, Name: "label", Type: &Type{K: TString}, Req: "optional"}}
+	}
+	if g.namesByFile == nil {
+		g.namesByFile = map[string]map[string]bool{}
+	}
+	if g.namesByFile[f.Path] == nil {
+		g.namesByFile[f.Path] = map[string]bool{}
+	}
+	g.namesByFile[f.Path][own.Name] = true
+	add(own)
+	user := &Def{Kind: DStruct, Name: g.newTypeName()}
+	id := 1
+	for _, d := range g.pool {
+		if d.Name != g.clusterName {
+			continue
+		}
+		ref := &Type{K: TRef, Ref: &Ref{File: d.File, Name: d.Name}}
+		var ft *Type
+		switch g.intn(0, 3, "cluster_use") {
+		case 0:
+			ft = &Type{K: TList, Elem: ref}
+		case 1:
+			ft = &Type{K: TMap, Key: &Type{K: TString}, Val: ref}
+		case 2:
+			ft = &Type{K: TList, Elem: &Type{K: TList, Elem: ref}}
+		default:
+			ft = ref
+		}
+		user.Fields = append(user.Fields, &Field{ID: id, Name: fmt.Sprintf("shared%d", id), Type: ft, Req: "optional"})
+		id++
+	}
+	add(user)
 }
 
 func (g *gctx) genEnum() *Def {
@@ -918,7 +1002,7 @@ func (g *gctx) genService() *Def {
 				// two exceptions of the same type cannot be told apart by the Go type switch
 				// of the generated helpers: such a function cannot be mapped to valid Go, so it
 				// belongs to the hostile pool only (must be rejected at generation time, F20)
-				if usedExc[e.File+"#"+e.Name] && !g.o.Hostile {
+				if usedExc[e.File+"#"+e.Name] && (!g.o.Hostile || !g.chance(1, 4, "excdup")) {
 					continue
 				}
 				usedExc[e.File+"#"+e.Name] = true
